@@ -255,7 +255,7 @@ def job_visc(job):
         check_defined(job, f"viscosity/{side}", r)
 
 
-def replay_array(model, dtype="f8", intparams=False, descending=False):
+def replay_array(model, dtype="f8", intparams=False, descending=False, series=False):
     """The orderings on the array entry points (one call with both pressures), real code."""
     import numpy as np
     from bluebonnet.fluids import oil
@@ -288,6 +288,24 @@ def replay_array(model, dtype="f8", intparams=False, descending=False):
             if bad:
                 return True, {"what": f"array entry points with an element exactly at the bubble point p_b={pb!r}: " + "; ".join(bad[:2]), "inputs": m, "pressures": trial}
     arr = np.array(ps, dtype={"f8": "float64", "i8": "int64", "i4": "int32"}[dtype])
+    if series:
+        # the pressure column of a table that was re-ordered (index labels 1, 0 in row order): positions pair pressures with results
+        import pandas as pd
+        sarr = pd.Series(arr, index=[1, 0])
+        with np.errstate(all="ignore"):
+            try:
+                rs_s = np.asarray(oil.solution_gor_Standing(T_, sarr, api, gg, rsi), float)
+                bo_s = np.asarray(oil.b_o_Standing(T_, sarr, api, gg, rsi), float)
+            except Exception as ex:  # noqa: BLE001
+                return True, {"what": f"array entry points raised {ex!r} on a pressure Series labelled 1, 0", "inputs": m}
+        bad = []
+        for j, q in enumerate(ps):
+            for nm, got, f in (("R_s", rs_s, oil.solution_gor_Standing), ("B_o", bo_s, oil.b_o_Standing)):
+                want = float(f(T_, float(q), api, gg, rsi))
+                if got.shape != arr.shape or not abs(float(got[j]) - want) <= 1e-9 * abs(want):
+                    bad.append(f"{nm} at position {j} (p={q!r}) is {float(got[j]) if got.shape == arr.shape else got!r}, the scalar call gives {want!r}")
+        if bad:
+            return True, {"what": f"pressure Series {ps} labelled 1, 0 (p_b={pb!r}): " + "; ".join(bad[:2]), "inputs": m}
     with np.errstate(all="ignore"):
         if descending:
             # the same two pressures listed from high to low (a depletion sequence); results mapped back to ascending order
@@ -336,7 +354,8 @@ def job_array(job, variants=(("f8", False), ("i8", False), ("i8", True), ("f8", 
     job.bound(array_form="length 2, dtypes float64 / int64, scalar parameters float or Python int (whole numbers)")
     for var in variants:
         dt, intp = var[0], var[1]
-        desc = len(var) > 2 and var[2]
+        desc = len(var) > 2 and var[2] is True
+        ser = len(var) > 2 and var[2] == "series"
         ranges = dict(OIL_BOX)
         ranges.update(p1=(15, 50000), p2=(15, 50000))
         vs, dom = box(job, _integer=("T", "api", "rsi") if intp else (), **ranges)
@@ -345,13 +364,18 @@ def job_array(job, variants=(("f8", False), ("i8", False), ("i8", True), ("f8", 
         p1, p2 = vs["p1"], vs["p2"]
         pb, pbc = _pb_conds(oil, a4, [p1, p2])
         dom = dom + pbc + [T.b_lt(P(p1), P(p2))]
-        tagv = f"{ {'f8': 'float64', 'i8': 'int64'}[dt] }{',python-int parameters' if intp else ''}{',listed high to low' if desc else ''}"
-        rp = (replay_array, {"dtype": dt, "intparams": intp, "descending": desc})
+        tagv = f"{ {'f8': 'float64', 'i8': 'int64'}[dt] }{',python-int parameters' if intp else ''}{',listed high to low' if desc else ''}{',Series labelled 1,0' if ser else ''}"
+        rp = (replay_array, {"dtype": dt, "intparams": intp, "descending": desc, "series": ser})
 
         def run():
             arr = SymArray([p2, p1] if desc else [p1, p2], dt)
+            if ser:
+                from ..shims.pd_shim import SymSeries
+                arr = SymSeries([p1, p2], dt, [1, 0])
             rs = oil.solution_gor_Standing(T_, arr, api, gg, rsi)
             bo = oil.b_o_Standing(T_, arr, api, gg, rsi)
+            if ser:
+                rs, bo = (x.__sx_plain__() if hasattr(x, "__sx_plain__") else x for x in (rs, bo))
             if desc and isinstance(rs, SymArray) and isinstance(bo, SymArray) and len(rs.d) == 2 and len(bo.d) == 2:
                 rs, bo = SymArray(list(reversed(rs.d)), rs.dtype_tag), SymArray(list(reversed(bo.d)), bo.dtype_tag)
             bo_s = [oil.b_o_Standing(T_, p1, api, gg, rsi), oil.b_o_Standing(T_, p2, api, gg, rsi)]
@@ -520,4 +544,4 @@ from .c19 import job_facade_oil_reassigned, replay_facade  # noqa: E402,F401
 def jobs(tier):
     return [("continuity", job_continuity), ("Rs", job_rs), ("Bo", job_bo), ("viscosity", job_visc), ("facade-oil-reassigned", job_facade_oil_reassigned), ("zero-d-parameters", job_zero_d), ("array3-unsorted", job_array3)] + \
         [(f"array-{dt}{'-int' if intp else ''}", (lambda j, v=(dt, intp): job_array(j, (v,)))) for dt, intp in (("f8", False), ("i8", False), ("i8", True), ("f8", True))] + \
-        [("array-f8-descending", lambda j: job_array(j, (("f8", False, True),)))]
+        [("array-f8-descending", lambda j: job_array(j, (("f8", False, True),))), ("array-f8-labelled-series", lambda j: job_array(j, (("f8", False, "series"),)))]
